@@ -13,25 +13,22 @@ type flow[S any] interface {
 
 // runForward iterates to a fixpoint and returns the state before every instruction and at every block exit.
 func runForward[S any](fn *ssa.Function, f flow[S]) (before map[ssa.Instruction]S, out map[*ssa.BasicBlock]S) {
+	if len(fn.Blocks) == 0 {
+		return map[ssa.Instruction]S{}, map[*ssa.BasicBlock]S{}
+	}
+	return runForwardFrom(fn, f, fn.Blocks[0])
+}
+
+// runForwardFrom starts the analysis at an arbitrary block with the entry state (used for per-clause summaries).
+func runForwardFrom[S any](fn *ssa.Function, f flow[S], entry *ssa.BasicBlock) (before map[ssa.Instruction]S, out map[*ssa.BasicBlock]S) {
 	before = map[ssa.Instruction]S{}
 	out = map[*ssa.BasicBlock]S{}
-	if len(fn.Blocks) == 0 {
-		return
-	}
 	in := map[*ssa.BasicBlock]S{}
 	has := map[*ssa.BasicBlock]bool{}
-	entry := fn.Blocks[0]
 	in[entry] = f.Entry()
 	has[entry] = true
 	work := []*ssa.BasicBlock{entry}
 	queued := map[*ssa.BasicBlock]bool{entry: true}
-	// recover block (if any) is entered with the entry state
-	if fn.Recover != nil {
-		in[fn.Recover] = f.Entry()
-		has[fn.Recover] = true
-		work = append(work, fn.Recover)
-		queued[fn.Recover] = true
-	}
 	iter := 0
 	for len(work) > 0 && iter < 20000 {
 		iter++
